@@ -177,13 +177,89 @@ func runRecurse(r *core.Run) {
 		}
 	}
 	r.Floor("functions with a depth guard", nGuards, 2)
+	// Combinators: a function that calls one of its own function-typed parameters (backtrack(consume func(*Lexer) bool))
+	// gets, in a context-insensitive graph, an edge to everything ever passed to it, which closes spurious cycles
+	// (identToken -> backtrack -> identToken). When every call of the combinator is static and passes a known function,
+	// the call of the parameter is attributed to the caller that chose it: caller -> passed function, under the guard
+	// of the caller's call site; the combinator's own edges through that parameter are dropped.
+	dropped := map[*callgraph.Edge]bool{}
+	type extraEdge struct {
+		to      *callgraph.Node
+		guarded bool
+	}
+	extra := map[*callgraph.Node][]extraEdge{}
+	nRewired := 0
+	for _, h := range nodes {
+		params := map[*ssa.Parameter]bool{}
+		for _, e := range h.Out {
+			if e.Site != nil && !e.Site.Common().IsInvoke() {
+				if p, ok := e.Site.Common().Value.(*ssa.Parameter); ok && p.Parent() == h.Func {
+					params[p] = true
+				}
+			}
+		}
+		for p := range params {
+			idx := -1
+			for i, q := range h.Func.Params {
+				if q == p {
+					idx = i
+				}
+			}
+			ok := idx >= 0 && len(h.In) > 0
+			type add struct {
+				from, to *callgraph.Node
+				guarded  bool
+			}
+			var adds []add
+			for _, in := range h.In {
+				if !ok {
+					break
+				}
+				if in.Site == nil || in.Site.Common().StaticCallee() != h.Func || idx >= len(in.Site.Common().Args) {
+					ok = false
+					break
+				}
+				var f *ssa.Function
+				switch a := in.Site.Common().Args[idx].(type) {
+				case *ssa.Function:
+					f = a
+				case *ssa.MakeClosure:
+					f, _ = a.Fn.(*ssa.Function)
+				}
+				if f == nil || cg.Nodes[f] == nil {
+					ok = false
+					break
+				}
+				adds = append(adds, add{in.Caller, cg.Nodes[f], callGuarded(in.Caller.Func, in.Site, guardsOf[in.Caller.Func])})
+			}
+			if !ok {
+				continue
+			}
+			for _, e := range h.Out {
+				if e.Site != nil && e.Site.Common().Value == ssa.Value(p) {
+					dropped[e] = true
+				}
+			}
+			for _, a := range adds {
+				extra[a.from] = append(extra[a.from], extraEdge{a.to, a.guarded})
+			}
+			nRewired++
+		}
+	}
+	r.Count("combinator parameters attributed to their callers", nRewired)
 	// adjacency over unguarded edges
 	adj := map[*callgraph.Node][]*callgraph.Node{}
 	nEdges, nGuardedEdges := 0, 0
 	for _, n := range nodes {
 		seen := map[*callgraph.Node]bool{}
+		for _, x := range extra[n] {
+			if inMod[x.to] && !x.guarded && !seen[x.to] {
+				seen[x.to] = true
+				adj[n] = append(adj[n], x.to)
+			}
+		}
 		for _, e := range n.Out {
-			if !inMod[e.Callee] {
+			if !inMod[e.Callee] || dropped[e] {
 				continue
 			}
 			nEdges++
